@@ -6,6 +6,7 @@ Ops are plain tuples (picklable, JSON-able => replayable):
   ("append", d, p, k) ("trunc", d, p, size) ("symlink", d, p, target) ("hardlink", d, p, target_path)
   ("mkdir", d, p) ("rmdir", d, p) ("silent", d, p, offset)
   ("cmd", name, arg...)                   a snapraid command, e.g. ("cmd", "sync", "-B", "1")
+  ("cmd-eio", glob, n, name, arg...)      the same with the n-th pread of a file matching root/glob failing with EIO
   ("clock", delta)                        advance the frozen clock
 """
 import hashlib, os, json
@@ -51,6 +52,21 @@ def apply_op(lab, op, **runkw):
         if _isreg(lab, op[1], op[2]):
             data = lab.read(op[1], op[2])
             lab.write(op[3], op[4], data, file_mtime_ns(op[4], len(data), 77))
+    elif k == "swapinodes":
+        # two files of one disk exchange their inode numbers: names, bytes, sizes and time-stamps all stay what they were
+        # (rename both, then put the bytes back in place) - what a restore onto a fresh file system does to inode numbers
+        _, d, p1, p2 = op
+        if _isreg(lab, d, p1) and _isreg(lab, d, p2):
+            f1, f2 = lab.p(d, p1), lab.p(d, p2)
+            s1, s2 = os.lstat(f1), os.lstat(f2)
+            b1, b2 = open(f1, "rb").read(), open(f2, "rb").read()
+            tmp = f1 + ".swap-tmp"
+            os.rename(f1, tmp); os.rename(f2, f1); os.rename(tmp, f2)
+            for fp, data, st in ((f1, b1, s1), (f2, b2, s2)):
+                with open(fp, "r+b") as f:
+                    f.truncate(0)
+                    f.write(data)
+                os.utime(fp, ns=(st.st_mtime_ns, st.st_mtime_ns))
     elif k == "silent":
         # silent corruption: one byte changes in place (same inode, size and time-stamp); op = ("silent", disk, path, offset) with a
         # negative offset counted from the end
@@ -100,6 +116,12 @@ def apply_op(lab, op, **runkw):
         lab.write_conf()
     elif k == "cmd":
         return lab.run(op[1], *op[2:], **runkw)
+    elif k == "cmd-eio":
+        # ("cmd-eio", glob below the root, n, command, args...): the command runs with the n-th pread on a matching file failing (EIO)
+        kw = dict(runkw)
+        env = dict(kw.pop("env", None) or {})
+        env["VP_FAIL"] = "%s/%s:pread:%d:5" % (lab.root, op[1], op[2])
+        return lab.run(op[3], *op[4:], env=env, **kw)
     else:
         raise ValueError("unknown op %r" % (op,))
     return None
